@@ -1487,6 +1487,14 @@ class Tensor:
 
         swizzled = Tensor.fromFiber(**kwargs)
 
+        #
+        # Carry over the hints that follow the data
+        #
+        swizzled.setMutable(self.isMutable())
+
+        for rank_id in swizzled.getRankIds():
+            swizzled.setFormat(rank_id, self.getFormat(rank_id))
+
         # For each fiber, reset its active range
         frontier = [swizzled.getRoot()]
         while frontier:
